@@ -469,6 +469,9 @@ def rule_load_before_get(F, rep, rule="load-before-get"):
     """every call of CachingReader::get_bytes(r) is dominated by the success edge of load_bytes(r') on the same reader with
     r' == r (both components value-equal) and no clear_cache in between.  Discharges the `expect` in get_bytes."""
     n = 0
+    from . import prov
+    from .engine import program
+    prov.set_program(program(F))      # ranges are compared in normal form (helpers that forward a header are looked through)
     gb = F.fn("elf_stream::CachingReader::get_bytes")
     if gb is None:
         rep.bad(rule, "anchor", "src/elf_stream.rs", "anchor missing: get_bytes")
@@ -488,6 +491,7 @@ def rule_load_before_get(F, rep, rule="load-before-get"):
             continue
         loads = [c for c in an.calls() if c.callee_qual == "elf_stream::CachingReader::load_bytes"]
         clears = [c for c in an.calls() if c.callee_qual == "elf_stream::CachingReader::clear_cache"]
+        hloads = helper_loads(F, an)
         for b in gets:
             n += 1
             cs = an.calls_by_block[b]
@@ -499,6 +503,13 @@ def rule_load_before_get(F, rep, rule="load-before-get"):
                     if not any(an.reachable(l.block, c.block) and an.reachable(c.block, b) for c in clears):
                         hit = l
                         break
+            if hit is None:
+                # ... or of a private helper that loads that range into the same reader on each of its success paths
+                for hc, ri, r2 in hloads:
+                    if (r2 is rng or pnorm_eq(r2, rng)) and hc.arg_lvs[ri] == cs.arg_lvs[0] and ("var", hc.result, "Ok") in cs.facts:
+                        if not any(an.reachable(hc.block, c.block) and an.reachable(c.block, b) for c in clears):
+                            hit = hc
+                            break
             if hit is None and fn["kind"] == "Closure":
                 hit = _closure_runs_after_load(F, fn, rng)
             rep.require(hit is not None, rule, key, cs.where(),
@@ -507,6 +518,43 @@ def rule_load_before_get(F, rep, rule="load-before-get"):
                         % (fn["qual"], pp(rng)[:160]))
     rep.floor(rule, "get_bytes call sites", n, 8)
     return n
+
+
+def helper_loads(F, an):
+    """[(call site c, index of the reader argument, range in the caller's terms)]: c calls a private helper (not one the rules know by
+    name) that on every path on which it returns Ok has successfully loaded that range into the reader it was handed"""
+    from .engine import program
+    prog = program(F)
+    LB, CC = "elf_stream::CachingReader::load_bytes", "elf_stream::CachingReader::clear_cache"
+    out = []
+    for c in an.calls():
+        lf = prog.local_fn(c.callee)
+        if lf is None or lf["kind"] == "Closure" or prog.known_name(lf) or c.block not in an.entry:
+            continue
+        han = analyze_fn(F, lf)
+        hps = han.paths() if han is not None else None
+        if not hps:
+            continue
+        common = None
+        for t, st, calls in hps:
+            if t.op == "agg" and t.args[3] == "Err":
+                continue
+            if not (t.op == "agg" and t.args[3] == "Ok") or any(x.callee_qual == CC for x in calls):
+                common = set()
+                break
+            s_ = set()
+            for x in calls:
+                if x.callee_qual == LB and ("var", x.result, "Ok") in st.facts and x.args[0].op == "param":
+                    s_.add((x.args[0].args[0] - 1, han.simp(x.args[1], st.facts)))
+            common = s_ if common is None else (common & s_)
+        for ri, r in sorted(common or (), key=lambda z: (z[0], pp(z[1]))):
+            try:
+                r2 = prog.subst(an, State_(an, c), r, c.arg_values())
+            except KeyError:
+                r2 = None
+            if r2 is not None and ri < len(c.arg_lvs) and c.arg_lvs[ri] is not None:
+                out.append((c, ri, r2))
+    return out
 
 
 def _closure_runs_after_load(F, cfn, rng):
